@@ -35,6 +35,7 @@ class Parser:
         self.mathparser = mathparser.MathParser(self)
         self.unknowns = []
         self.extracted = []
+        self.extract_mode = False
         self.latex = ''
 
         # used by expand_item():
@@ -135,6 +136,7 @@ class Parser:
     def parse(self, latex, define='', extract=None):
         if extract:
             self.init_extractions(extract)
+            self.extract_mode = True
         self.extracted = []
         self.unknowns = []
 
@@ -473,7 +475,12 @@ class Parser:
             out.append(defs.MathBeginToken(tok.pos, name, env))
             return out
         if env.remove:
+            # detached text (footnotes, ...) inside is removed, too;
+            # option --extr still reports macro arguments from inside
+            n = len(self.extracted)
             out += self.expand_sequence(buf, env_stop=name)
+            if not self.extract_mode:
+                del self.extracted[n:]
         return out
 
     #   close an environment
